@@ -4,7 +4,7 @@
 //! generator with hostile values, near-valid mutations of valid sentences, token soups, and (in
 //! /verif/fuzz) coverage-guided byte-level fuzzing of the same entry point.
 
-use chrono::{Duration, NaiveDate, NaiveDateTime, TimeZone, Utc};
+use chrono::{Datelike, Duration, NaiveDate, NaiveDateTime, TimeZone, Utc};
 use opening_hours::localization::{Coordinates, Localize, NoLocation, TzLocation};
 use opening_hours::{verif_hooks, Context, ContextHolidays, OpeningHours};
 
@@ -295,6 +295,127 @@ fn hostile(ch: &mut Choices, case: &mut Case) -> Result<(), String> {
     Ok(())
 }
 
+const MONTH_NAMES: [&str; 12] = ["Jan", "Feb", "Mar", "Apr", "May", "Jun", "Jul", "Aug", "Sep", "Oct", "Nov", "Dec"];
+const WD_NAMES: [&str; 7] = ["Mo", "Tu", "We", "Th", "Fr", "Sa", "Su"];
+
+/// Where date arithmetic runs out: day offsets are chosen so that the shifted date lands within
+/// a few days of the first / last date chrono can represent, of the ends of the supported range,
+/// or so that the offset itself sits next to a limit of the integer / duration types involved.
+/// The expression is then evaluated in the year the offset was computed for (and its neighbours).
+struct EdgeCase {
+    text: String,
+    instants: Vec<NaiveDateTime>,
+    holiday: NaiveDate,
+    target: &'static str,
+}
+
+fn gen_edge_case(ch: &mut Choices) -> EdgeCase {
+    let year = ch.pick(&[2020, 2024, 2025, 2021, 1900, 9999, 2023]);
+    let (m, d) = if ch.chance(50) { ch.pick(&[(1u32, 1u32), (12, 31), (2, 28), (6, 15), (3, 1), (1, 2)]) } else { (1 + ch.draw(12), 1 + ch.draw(28)) };
+    let template = ch.draw(8);
+    let anchor = if template == 6 { crate::model::easter(year) } else { NaiveDate::from_ymd_opt(year, m, d).unwrap() };
+    let k = ch.int(0, 9);
+    let ymd = |y, m, d| NaiveDate::from_ymd_opt(y, m, d).unwrap();
+    let (target, name): (NaiveDate, &'static str) = match ch.weighted(&[30, 30, 8, 8, 8, 8, 8]) {
+        0 => (NaiveDate::MAX - Duration::days(k), "last_representable_date"),
+        1 => (NaiveDate::MIN + Duration::days(k), "first_representable_date"),
+        2 => (ymd(9999, 12, 31) + Duration::days(k - 4), "end_of_supported_range"),
+        3 => (ymd(1900, 1, 1) + Duration::days(k - 4), "start_of_supported_range"),
+        4 => (ymd(0, 1, 1) + Duration::days(k - 4), "year_zero"),
+        5 => (ymd(-1, 12, 31) - Duration::days(365 * 4 + k), "negative_years"),
+        _ => (ymd(10000, 1, 1) + Duration::days(366 + k), "year_10001"),
+    };
+    let (mut n, mut name) = ((target - anchor).num_days(), name);
+    if ch.chance(20) {
+        // limits of the types the offset goes through
+        const LIMITS: [i64; 8] = [i64::MAX, i64::MAX / 86_400_000, i64::MAX / 86_400, i32::MAX as i64, u32::MAX as i64, 1 << 31, 191_468_000, i64::MAX / 1_000_000_000 / 86_400];
+        let l = ch.pick(&LIMITS);
+        n = l.saturating_sub(k).max(1) * if ch.chance(50) { -1 } else { 1 };
+        if l < i64::MAX - 9 && ch.chance(50) {
+            n = (l + k) * n.signum();
+        }
+        name = "integer_or_duration_limit";
+    }
+    let off = |n: i64| format!(" {}{} days", if n < 0 { '-' } else { '+' }, n.unsigned_abs());
+    let wd = if ch.chance(55) { format!("{}{}", if ch.chance(50) { '+' } else { '-' }, ch.pick(&WD_NAMES)) } else { String::new() };
+    let mon = MONTH_NAMES[anchor.month0() as usize];
+    let day = anchor.day();
+    let (m2, d2) = (MONTH_NAMES[ch.draw(12) as usize], 1 + ch.draw(28));
+    let body = match template {
+        0 => format!("{mon} {day}{wd}{}", off(n)),
+        1 => format!("{mon} {day}{wd}{}-{m2} {d2}", off(n)),
+        2 => format!("{m2} {d2}-{mon} {day}{wd}{}", off(n)),
+        3 => format!("{year} {mon} {day}{wd}{}", off(n)),
+        // a weekday offset shifts the other way round: the matching day is `date - offset`
+        4 => format!("{}[{}]{}", WD_NAMES[anchor.weekday().num_days_from_monday() as usize], ch.pick(&["1", "2", "-1", "1-5"]), off(-n)),
+        5 => format!("PH{}", off(-n)),
+        6 => format!("easter{wd}{}", off(n)),
+        _ => format!("{mon} {day}{wd}{}-{mon} {day}{wd}{}", off(n), off(n.saturating_add(ch.int(-3, 3)))),
+    };
+    let prefix = ch.pick(&["", "", "24/7; ", "Mo-Fr 08:00-18:00; "]);
+    let suffix = ch.pick(&["", " 10:00-12:00", " off", " 22:00-26:00 unknown"]);
+    let mut instants = Vec::new();
+    for _ in 0..3 {
+        let date = match ch.weighted(&[30, 15, 15, 25, 15]) {
+            0 => anchor,
+            1 => ymd(year, 1, 1),
+            2 => ymd(year, 12, 31),
+            3 => ymd(year, 1, 1) + Duration::days(ch.int(0, 364)),
+            _ => ymd((year + ch.int(-3, 3) as i32).clamp(1900, 9999), 1, 1) + Duration::days(ch.int(0, 364)),
+        };
+        instants.push(date.and_hms_opt(ch.draw(24), ch.draw(60), 0).unwrap());
+    }
+    EdgeCase { text: format!("{prefix}{body}{suffix}"), instants, holiday: anchor, target: name }
+}
+
+fn arith_edges(ch: &mut Choices, case: &mut Case) -> Result<(), String> {
+    let e = gen_edge_case(ch);
+    case.key = format!("{} @ {}", e.text, e.instants.iter().map(|t| t.to_string()).collect::<Vec<_>>().join(", "));
+    edge_exercise(&e.text, &e.instants, e.holiday, case)?;
+    case.label(e.target);
+    case.nontrivial = case.labels.contains(&"accepted");
+    Ok(())
+}
+
+fn edge_exercise(text: &str, instants: &[NaiveDateTime], holiday: NaiveDate, case: &mut Case) -> Result<(), String> {
+    let mut tally = Tally { calls: 0, too_far: 0 };
+    let parsed = call(Mode::Full, &mut tally, &format!("parse(`{text}`)"), || OpeningHours::parse(text))?.unwrap();
+    let Ok(oh) = parsed else {
+        case.label("rejected");
+        return Ok(());
+    };
+    case.label("accepted");
+    let printed = call(Mode::Full, &mut tally, &format!("`{text}`: to_string"), || oh.to_string())?.unwrap();
+    call(Mode::Full, &mut tally, &format!("`{text}`: parse of its printed form `{printed}`"), || OpeningHours::parse(&printed).is_ok())?;
+    let norm = call(Mode::Full, &mut tally, &format!("`{text}`: normalize"), || oh.normalize())?.unwrap();
+    let mut calendar = compact_calendar::CompactCalendar::default();
+    if (1900..=9999).contains(&holiday.year()) {
+        calendar.insert(holiday);
+    }
+    let ctx = Context::default().with_holidays(ContextHolidays::new(std::sync::Arc::new(calendar), Default::default()));
+    let oh = oh.with_context(ctx.clone());
+    exercise_ctx(Mode::Light, &mut tally, text, &oh, &format!("no location, PH = {holiday}"), &|n| n, instants, Duration::days(400))?;
+    let norm = norm.with_context(ctx);
+    exercise_ctx(Mode::Light, &mut tally, text, &norm, "normal form, no location", &|n| n, &instants[..1], Duration::days(400))?;
+    let tz = chrono_tz::Pacific::Kiritimati;
+    let oh_tz = oh.clone().with_context(Context::default().with_locale(TzLocation::new(tz)));
+    exercise_ctx(Mode::Light, &mut tally, text, &oh_tz, &format!("zone {tz}"), &move |n| Utc.from_utc_datetime(&n).with_timezone(&tz), &instants[..1], Duration::days(40))?;
+    finish(case, tally);
+    Ok(())
+}
+
+/// Replay entry: `expression @ instant[, instant...]`.
+fn edges_text(text: &str, case: &mut Case) -> Result<(), String> {
+    case.key = text.to_string();
+    let (expr, at) = text.rsplit_once(" @ ").ok_or("expected `expression @ instant, ...`")?;
+    let instants: Vec<NaiveDateTime> = at
+        .split(", ")
+        .map(|s| NaiveDateTime::parse_from_str(s.trim(), "%Y-%m-%d %H:%M:%S").map_err(|e| format!("{s}: {e}")))
+        .collect::<Result<_, _>>()?;
+    let holiday = instants.first().map(|t| t.date()).unwrap_or_default();
+    edge_exercise(expr, &instants, holiday, case)
+}
+
 pub const TOKENS: &[&str] = &[
     "Mo", "Tu", "We", "Th", "Fr", "Sa", "Su", "PH", "SH", "Jan", "Feb", "Mar", "Apr", "May", "Jun", "Jul", "Aug", "Sep", "Oct", "Nov",
     "Dec", "easter", "week", "day", "days", "open", "closed", "off", "unknown", "24/7", "sunrise", "sunset", "dawn", "dusk", "00:00", "24:00",
@@ -439,6 +560,15 @@ pub fn property() -> Property {
                 cases_quick: 12_000,
                 cases_thorough: 500_000,
                 max_choices: 380,
+            },
+            SubCheck {
+                name: "arith_edges",
+                rule: "date arithmetic at the limits: a date / weekday / PH / easter selector with a day offset (and optionally a weekday offset) computed so that the shifted date lands within 9 days of the first or last date chrono represents, of either end of the supported range, of year 0 / negative years / year 10001, or whose value sits within 9 of an integer / duration limit (i64::MAX, i64::MAX ms / s / ns in days, i32::MAX, u32::MAX, 2^31, span of chrono's dates); evaluated (schedule_at, state, next_change, iter_range, iter_from; also normal form and a time-zone context) at 3 instants in the year the offset was computed for and its neighbours; non-trivial = the sentence was accepted",
+                f: arith_edges,
+                text_f: Some(edges_text),
+                cases_quick: 6_000,
+                cases_thorough: 300_000,
+                max_choices: 60,
             },
             SubCheck {
                 name: "bound_text",
